@@ -349,6 +349,8 @@ package nbhttp
 //@     invariant 0 <= start && start <= i && i <= len(data) && ParserInv(p) && p.state != stateClose
 //@     invariant bytes_row(base(data)) == p.gRow && (offset > 0 ==> base(*p.bytesCached) == base(data) && off(*p.bytesCached) == off(data))
 //@     invariant (p.state == stateBodyContentLength ==> i - start < p.contentLength) && (p.state == stateBodyChunkData ==> i - start < p.chunkSize)
+//@     note segmentation independence, structural half (C06): between two bytes the scan keeps no information in locals other than the scan position and the token start (both relative to the cache, which the suffix clauses pin down); everything else that outlives a byte lives in the Parser and so survives the end of a read
+//@     carried i start   // prop C06
 //@     decreases len(data) - i
 //@     invariant ParseCache(p, offset, len(data), old(p.bytesCached), old(len(data)), old(p.Engine.ReadLimit))
 
